@@ -22,7 +22,7 @@ EXPLANATION = (
     "values never reach write(); attribute values recurse only through writeWithAttributeEscaping(write) + attributeEscapingDoneOutside, children reset to escapeForContent, "
     "no other step overrides the escaper, keepGoing forwards its context; buffered writes are delivered in order; between escaper and sink nothing rewrites the bytes: the writer flatten() hands down is the caller's writer or a "
     "forwarder of its unchanged argument (sink/output-not-rewritten); a slot frame answers by key PRESENCE only - the guards of `return <frame value>` never mention the value "
-    "(slot/decision-by-presence); the frame a Tag pushes is popped on every path leaving its branch (slot/frame-popped: it is NOT - known finding F28c).  FINITE-EXHAUSTIVE: "
+    "(slot/decision-by-presence); the frame a Tag pushes is popped on every path leaving its branch (slot/frame-popped; F28c, fixed: it was not - the revert is a mutant).  FINITE-EXHAUSTIVE: "
     "_getSlotValue over stacks of 0..3 frames x {None, empty, other key, key with a truthy / each falsy value} x default {None, falsy, truthy}: the innermost frame holding the key "
     "answers, whatever the value (slot/nearest-frame-wins); content and attribute escapers on all "
     "256 bytes and their neighbourhoods (single-byte replacement chain checked).  BOUNDED second layer (bounded evidence only for: comment/CDATA escapers - string grids against "
@@ -1073,6 +1073,11 @@ def _escaper_comment(ctx):
 
 
 MUTANTS = [
+    Mutant("revert-F28c-tag-frame-never-popped", FL, "            yield keepGoing(root.children)\n            slotData.pop()\n            return\n", "            yield keepGoing(root.children)\n            return\n",
+           more=[(FL, "            write(b\" />\")\n        # The slots filled on this tag are in scope for its own attributes and\n        # children only.\n        slotData.pop()\n", "            write(b\" />\")\n")],
+           expect_rule="slot/frame-"),
+    Mutant("void-element-frame-not-popped", FL, "            write(b\" />\")\n        # The slots filled on this tag are in scope for its own attributes and\n        # children only.\n        slotData.pop()\n",
+           "            write(b\" />\")\n            return\n        slotData.pop()\n", expect_rule="slot/frame-popped"),
     Mutant("writer-drops-nul-bytes-after-escaping", FL, "    return ensureDeferred(_flattenTree(request, root, write))\n",
            "    return ensureDeferred(_flattenTree(request, root, lambda data: write(data.replace(b\"\\x00\", b\"\"))))\n", expect_rule="sink/output-not-rewritten"),
     Mutant("writer-normalises-line-ends-after-escaping", FL, "    return ensureDeferred(_flattenTree(request, root, write))\n",
@@ -1106,6 +1111,8 @@ MUTANTS = [
     Mutant("comment-close-before-data", FL, "        write(b\"<!--\")\n        write(escapedComment(root.data))\n        write(b\"-->\")", "        write(b\"<!--\")\n        write(b\"-->\")\n        write(escapedComment(root.data))"),
 ]
 SILENT = [
+    Silent("tag-frame-popped-in-both-arms", FL, "            write(b\" />\")\n        # The slots filled on this tag are in scope for its own attributes and\n        # children only.\n        slotData.pop()\n",
+           "            write(b\" />\")\n            slotData.pop()\n", more=[(FL, "            write(b\"</\" + tagName + b\">\")\n", "            write(b\"</\" + tagName + b\">\")\n            slotData.pop()\n")]),
     Silent("writer-passed-through-a-plain-forwarder", FL, "    return ensureDeferred(_flattenTree(request, root, write))\n",
            "    def passOn(data):\n        return write(data)\n\n    return ensureDeferred(_flattenTree(request, root, passOn))\n"),
     Silent("slot-frame-tested-by-truthiness", FL, "        if slotFrame is not None and name in slotFrame:\n", "        if slotFrame and name in slotFrame:\n"),
